@@ -38,6 +38,9 @@ func fidelityPass(tier string, seed uint64, cov map[string]any) (int, []string) 
 		return 2, []string{"INFRA: " + err.Error()}
 	}
 	defer os.RemoveAll(root)
+	if bin, err = stageBinary(bin, root); err != nil {
+		return 2, []string{"INFRA: " + err.Error()}
+	}
 	old := syscall.Umask(0o022)
 	defer syscall.Umask(old)
 	compared, invocations, skipped := 0, 0, 0
@@ -85,8 +88,12 @@ func fidelityPass(tier string, seed uint64, cov map[string]any) (int, []string) 
 			args := c.Runs[ri].Args()
 			w.Stdin = append([]byte(nil), stdin...)
 			sres := invoke(w, args)
+			handOver(dir)
 			cmd := exec.Command(bin, args...)
 			cmd.Dir = dir
+			if dropPrivileges() {
+				cmd.SysProcAttr = &syscall.SysProcAttr{Credential: &syscall.Credential{Uid: unprivUID, Gid: unprivUID}}
+			}
 			cmd.Stdin = bytes.NewReader(stdin)
 			var so, se bytes.Buffer
 			cmd.Stdout, cmd.Stderr = &so, &se
@@ -182,13 +189,49 @@ func fidelityPass(tier string, seed uint64, cov map[string]any) (int, []string) 
 	return 0, []string{fmt.Sprintf("stub fidelity: %d scenarios / %d real invocations agree with the simulation byte for byte (%d skipped)", compared, invocations, skipped)}
 }
 
+// unprivUID is the uid/gid under which the real gxz binary runs when the
+// harness itself is root: an unprivileged process cannot damage the machine
+// (the pinned gxz unlinks /dev/stdout from its signal handler), and files
+// without read permission are unreadable for it as they are in the simulation.
+const unprivUID = 65534
+
+// dropPrivileges reports whether real runs are done under unprivUID.
+func dropPrivileges() bool { return os.Geteuid() == 0 }
+
+// stageBinary copies the real gxz binary into the scratch root (mode 0755) so
+// that the unprivileged process can execute it wherever bin/ lives.
+func stageBinary(bin, root string) (string, error) {
+	os.Chmod(root, 0o755)
+	b, err := os.ReadFile(bin)
+	if err != nil {
+		return "", err
+	}
+	dst := filepath.Join(root, "gxz-real")
+	if err := os.WriteFile(dst, b, 0o755); err != nil {
+		return "", err
+	}
+	return dst, nil
+}
+
+// handOver gives a scenario directory and everything in it to unprivUID.
+func handOver(dir string) {
+	if !dropPrivileges() {
+		return
+	}
+	ents, _ := os.ReadDir(dir)
+	for _, e := range ents {
+		os.Lchown(filepath.Join(dir, e.Name()), unprivUID, unprivUID)
+	}
+	os.Chown(dir, unprivUID, unprivUID)
+}
+
 func fidelityEligible(c *GCase) bool {
 	for _, f := range c.Files {
 		m := os.FileMode(f.Mode)
 		if f.Kind == "symlink" || f.Kind == "dir" {
 			continue
 		}
-		if f.Name != "\x00stdin" && m&0o400 == 0 {
+		if f.Name != "\x00stdin" && m&0o400 == 0 && !dropPrivileges() {
 			return false // root reads unreadable files
 		}
 		if m&(os.ModeSetuid|os.ModeSetgid|os.ModeSticky) != 0 {
